@@ -114,34 +114,61 @@ func PubKeyToAddr(addressID int32, pubKey []byte) string {
 	return d.PubKeyToAddr(pubKey)
 }
 
+// checkAddrKey cache key of CheckAddress, the result depends on the address
+// and on the set of drivers enabled at the block height
+type checkAddrKey struct {
+	addr    string
+	enabled uint8 // bitmask of enabled driver ids, id range [0, MaxID]
+}
+
 // CheckAddress check address validity
 // blockHeight is used for enable check, pass -1 if there is no block height context
+// drivers are checked in ascending id order, for an invalid address the error
+// of the lowest-id enabled driver is returned
 func CheckAddress(addr string, blockHeight int64) (e error) {
 
-	if value, ok := checkAddressCache.Get(addr); ok {
+	var enabled uint8
+	for id := int32(0); id <= MaxID; id++ {
+		if d, ok := drivers[id]; ok && isEnable(blockHeight, d.enableHeight) {
+			enabled |= 1 << uint(id)
+		}
+	}
+	if enabled == 0 {
+		return ErrAddressDriverNotEnable
+	}
+	key := checkAddrKey{addr: addr, enabled: enabled}
+	if value, ok := checkAddressCache.Get(key); ok {
 		if value != nil {
 			return value.(error)
 		}
 		return nil
 	}
-	for _, d := range drivers {
-		if !isEnable(blockHeight, d.enableHeight) {
+	for id := int32(0); id <= MaxID; id++ {
+		if enabled&(1<<uint(id)) == 0 {
 			continue
 		}
-		e = d.driver.ValidateAddr(addr)
-		if e == nil {
+		err := drivers[id].driver.ValidateAddr(addr)
+		if err == nil {
+			e = nil
 			break
 		}
+		if e == nil {
+			e = err
+		}
 	}
-	checkAddressCache.Add(addr, e)
+	checkAddressCache.Add(key, e)
 	return e
 }
 
 // GetAddressType get address type id
+// drivers are checked in ascending id order
 func GetAddressType(addr string) (int32, error) {
-	for ty, d := range drivers {
-		e := d.driver.ValidateAddr(addr)
-		if e == nil {
+	for ty := int32(0); ty <= MaxID; ty++ {
+		d, ok := drivers[ty]
+		if !ok {
+			continue
+		}
+		if e := d.driver.ValidateAddr(addr); e == nil {
 			return ty, nil
 		}
 	}
